@@ -15,7 +15,7 @@ from __future__ import annotations
 import ast
 import copy
 
-from .core import link, names_in, txt, walk
+from .core import call_name, link, names_in, txt, walk
 
 
 def _cp(node):
@@ -690,6 +690,11 @@ def canon(repo, rel, func, keep=(), depth=2, unroll=True):
     ft = _FillToSlice()
     ft._top = None
     new = ft.visit(new)
+    ln = _LogicalNotToInvert()
+    ln._top = None
+    new = ln.visit(new)
+    new = _expand_partial(new)
+    new = _try_keyerror_to_if(new)
     new = _ifexp_to_if(new)
     new = _hoist_walrus(new)
     new = _named_conditions(new)
@@ -974,4 +979,99 @@ class _FillToSlice(ast.NodeTransformer):
             if isinstance(t, ast.Subscript) and isinstance(
                     t.slice, ast.Constant) and t.slice.value is Ellipsis:
                 t.slice = ast.Slice(lower=None, upper=None, step=None)
+        return node
+
+
+def _try_keyerror_to_if(func):
+    """``try: S(D[k]) except KeyError: H [else: E]`` (one statement S whose
+    only look-up is ``D[k]``) -> ``if k in D: S; E else: H``"""
+    def lookups(st):
+        return [n for n in ast.walk(st) if isinstance(n, ast.Subscript)
+                and isinstance(n.ctx, ast.Load)]
+
+    def process(stmts):
+        out = []
+        for st in stmts:
+            for fld in ("body", "orelse", "finalbody"):
+                if hasattr(st, fld) and isinstance(getattr(st, fld), list) \
+                        and not isinstance(st, (ast.FunctionDef,
+                                                ast.ClassDef)):
+                    setattr(st, fld, process(getattr(st, fld)))
+            if isinstance(st, ast.Try):
+                for h in st.handlers:
+                    h.body = process(h.body)
+            if isinstance(st, ast.Try) and len(st.body) == 1 and len(
+                    st.handlers) == 1 and not st.finalbody:
+                h = st.handlers[0]
+                subs = lookups(st.body[0])
+                if h.type is not None and txt(h.type) == "KeyError" \
+                        and h.name is None and len(subs) == 1 \
+                        and _pure_ref(subs[0].value) and isinstance(
+                            subs[0].slice, (ast.Name, ast.Constant)) \
+                        and not any(isinstance(n, ast.Call)
+                                    for n in ast.walk(st.body[0])):
+                    test = ast.Compare(left=_cp(subs[0].slice),
+                                       ops=[ast.In()],
+                                       comparators=[_cp(subs[0].value)])
+                    new = ast.copy_location(ast.If(
+                        test=test, body=st.body + st.orelse,
+                        orelse=h.body), st)
+                    out.append(new)
+                    continue
+            out.append(st)
+        return out
+    func.body = process(func.body)
+    return func
+
+
+def _expand_partial(func):
+    """``p = functools.partial(f, *a, **k)`` (bound once) … ``p(*b, **m)``
+    -> ``f(*a, *b, **k, **m)``"""
+    single = _single_assigned(func)
+    parts = {}
+    for name, asg in single.items():
+        v = asg.value
+        if isinstance(v, ast.Call) and (call_name(v) or "").split(".")[-1] \
+                == "partial" and v.args and len(asg.targets) == 1:
+            parts[name] = v
+    if not parts:
+        return func
+
+    class T(ast.NodeTransformer):
+        def visit_FunctionDef(self, node):
+            if node is func:
+                self.generic_visit(node)
+            return node
+
+        def visit_Call(self, node):
+            self.generic_visit(node)
+            if isinstance(node.func, ast.Name) and node.func.id in parts:
+                p = parts[node.func.id]
+                return ast.copy_location(ast.Call(
+                    func=_cp(p.args[0]),
+                    args=[_cp(a) for a in p.args[1:]] + node.args,
+                    keywords=[_cp(k) for k in p.keywords] + node.keywords),
+                    node)
+            return node
+    return T().visit(func)
+
+
+class _LogicalNotToInvert(ast.NodeTransformer):
+    """``np.logical_not(x)`` / ``np.invert(x)`` / ``np.bitwise_not(x)`` with
+    one argument -> ``~x`` (masks)"""
+
+    def visit_FunctionDef(self, node):
+        if getattr(self, "_top", None) is None:
+            self._top = node
+            self.generic_visit(node)
+        return node
+
+    def visit_Call(self, node):
+        self.generic_visit(node)
+        nm = call_name(node) or ""
+        if nm.split(".")[-1] in ("logical_not", "invert", "bitwise_not") \
+                and nm.split(".")[0] in ("np", "numpy") \
+                and len(node.args) == 1 and not node.keywords:
+            return ast.copy_location(ast.UnaryOp(op=ast.Invert(),
+                                                 operand=node.args[0]), node)
         return node
